@@ -123,7 +123,13 @@ PROPS = {
             "branches": ["padd.evicting", "padd.rejected", "padd.already_charged", "delete.resident", "delete.other_conflict", "delete.absent",
                          "tick.reclaimed", "p.clear.buf1", "remove.resident", "remove.buffer_full", "insert.split"],
             "assumptions": CACHE_ASSUME + ["guards of the theorem checked at run time on the implementation's observations: VictimsOk (no sampled victim is the incoming key) and TickOk (conflict hashes filed in due buckets pass the store's check)"]},
-    "C08": {"module": None, "jobs": [cache_job(r"\.(store|callbacks|buffer|ret)$", extra=["--collisions", "1"]), cache_job(r"\.(store|callbacks|buffer|ret)$", name="cache-plain", extra=["--w-clear", "5"])], "assumptions": CACHE_ASSUME},
+    "C08": {"module": "StrettoModel.Props.C08",
+            "jobs": [cache_job(r"\.(store|callbacks|buffer|ret)$", extra=["--collisions", "1"]), cache_job(r"\.(store|callbacks|buffer|ret)$", name="cache-plain", extra=["--w-clear", "5"])],
+            "branches": ["insert.update", "insert.new", "insert.new_over_resident", "remove.resident", "delete.resident", "padd.evicting", "padd.rejected", "padd.already_charged",
+                         "tick.reclaimed", "p.clear.buf1", "p.stop", "getmut.hit"],
+            "assumptions": CACHE_ASSUME + ["values are opaque ids; each write hands the cache a value id that occurs nowhere in it (a Rust value is moved in: a distinct object) — hypothesis `Fresh` of the run theorems; the harness numbers its values consecutively",
+                                           "the run theorems assume C06's guards on oracle inputs (VictimsOk, TickOk), checked at run time by the driver on the implementation's observations",
+                                           "the callback log of the model is the sequence of CacheCallback calls the recording callback of the harness saw; it is compared step by step"]},
     "C10": {"module": "StrettoModel.Props.C10", "jobs": [cache_job(r"\.(buffer|ret|wait|clear|close|closed)$", extra=["--w-wait", "10", "--w-close", "3", "--w-clear", "5"])],
             "oracles": [{"name": "live-barrier", "run": live_oracle("C10", ["barrier", "protocol_storm"])}], "assumptions": CACHE_ASSUME},
     "C15": {"module": "StrettoModel.Props.C15", "jobs": [cache_job(r"\.(ring|metrics|ret|batch)$")],
